@@ -4,21 +4,20 @@ From Coq Require Import ZifyBool.
 Open Scope Z_scope.
 
 Definition act_of (g : gen_action) : action := match g with GSkip => ASkip | GAdd => AAdd | GNone => ANone end.
-Lemma geneq_naive_step m2o cor cp beat : act_of (gen_naive_step m2o cor cp beat) = naive_action m2o cor cp beat.
-Proof. destruct m2o, cor, cp, beat; reflexivity. Qed.
 Lemma geneq_contains_or pin rin : gen_contains_or pin rin = (pin || rin).
 Proof. destruct pin, rin; reflexivity. Qed.
+(* cp / cr: the prediction / the reference of the candidate is already in the label map; the source may ask through contains_or,
+   contains_pred, contains_ref in any combination -- what matters is the action as a function of the two memberships *)
+Lemma geneq_naive_step m2o cp cr beat : act_of (gen_naive_step m2o cp cr beat) = naive_action m2o (cp || cr) cp beat.
+Proof. unfold gen_naive_step, gen_contains_or. destruct m2o, cp, cr, beat; reflexivity. Qed.
 
 (* the model's step is this decision table applied to the label-map predicates *)
 Lemma step_res_is_action {score} (beats : score -> bool) m2o (M : list (cand score)) c :
   step_res beats m2o M c =
-  match naive_action m2o (gen_contains_or (existsb (same_predb c) M) (existsb (fun d => cref c =? cref d) M))
-                         (existsb (same_predb c) M) (beats (fst c)) with
+  match act_of (gen_naive_step m2o (existsb (same_predb c) M) (existsb (fun d => cref c =? cref d) M) (beats (fst c))) with
   | ASkip => Ok M | AAdd => add_entry M c | ANone => Ok M end.
 Proof.
-  unfold step_res, naive_action.
-  replace (gen_contains_or (existsb (same_predb c) M) (existsb (fun d => cref c =? cref d) M))
-    with (existsb (same_predb c) M || existsb (fun d => cref c =? cref d) M) by (symmetry; apply geneq_contains_or).
+  rewrite geneq_naive_step. unfold step_res, naive_action.
   assert (E : existsb (competingb c) M = existsb (same_predb c) M || existsb (fun d => cref c =? cref d) M).
   { induction M as [|d M IH]; cbn [existsb]; [reflexivity|]. rewrite IH. unfold competingb, same_predb.
     destruct (cref c =? cref d), (cpred c =? cpred d), (existsb (fun d0 => cpred c =? cpred d0) M),
